@@ -1,6 +1,10 @@
 """C02 translated BODIES (round 4): Python `ast` -> Lean (lean/Mouette/Generated/C02Bodies.lean), re-extracted on every run from
 $MOUETTE_REPO/mouette/mesh/mesh_data.py and data_container.py.
 
+Round 7: `accessors_program` also reads `__getitem__`, `__setitem__` (under its re-raising try), `__iter__`, `__iadd__` (both
+branches), the three container constructors, `get_attribute` and `create_attribute`; the compiled bodies call them
+(`dcGet`, `dcSet`, `dcIter`, `dcIaddList`, `dcInit`, `dcCreateAttribute`).
+
 Round 6 adds dedicated straight-line translators: `from_arrays_program`, `load_program` (bodies with `raise` / `return`,
 compiled to `Except String _` terms chained by `Except.bind`), `dimensionality_program` (the cached property) and
 `accessors_program` (one-line `return <expr>` bodies of `__len__`, `empty`, `has_attribute`, `attributes`, `id_*`, emitted as
@@ -326,6 +330,10 @@ class Fn:
             if tv == "ahandle":
                 A, k = v.split("|")
                 return f"attrRead {A} {k} {self.atom(i)}", "aval"
+            pr = self.pair(n.value)
+            if pr is not None and tv in ("rrows", "vrows", "edges"):     # `self.<container>[i]`: DataContainer.__getitem__ (translated)
+                d = {"rrows": "(.list [])", "vrows": "default", "edges": "(0, 0)"}[tv]
+                return f"dcGet {pr} {self.atom(i)} {d}", ELEM[tv]
             if tv == "rrows": return f"rowGet {self.atom(v)} {self.atom(i)}", "rrow"
             if tv == "row": return f"getN {self.atom(v)} {self.atom(i)}", "nat"
             if tv == "vrows": return f"vget {self.atom(v)} {self.atom(i)}", "vrow"
@@ -420,6 +428,7 @@ class Fn:
             self.err("comprehension is not `[e for x in X]`")
         g = n.generators[0]
         it, ti = self.ex(g.iter)
+        if self.pair(g.iter) is not None: it = f"(dcIter {self.pair(g.iter)})"        # DataContainer.__iter__ (translated)
         if ti not in ELEM: self.err(f"comprehension over a {ti}")
         v = g.target.id
         saved = self.env.get(v)
@@ -465,6 +474,7 @@ class Fn:
             if len(g.generators) != 1 or g.generators[0].ifs: self.err("any(<generator>) with filters")
             gen = g.generators[0]
             it, ti = self.ex(gen.iter)
+            if self.pair(gen.iter) is not None: it = f"(dcIter {self.pair(gen.iter)})"
             if ti != "edges" or not (isinstance(gen.target, ast.Tuple) and len(gen.target.elts) == 2 and all(isinstance(x, ast.Name) for x in gen.target.elts)):
                 self.err("any(.. for a, b in <edges>) expected")
             names = [x.id for x in gen.target.elts]
@@ -477,7 +487,8 @@ class Fn:
             if t != "bool": self.err("any of non-booleans")
             return f"{self.atom(it)}.any (fun e => {e})", "bool"
         if txt == "DataContainer" and not args and [k.arg for k in n.keywords] == ["id"] and ast.unparse(n.keywords[0].value) == "'edges'":
-            return "([], [])", "econt"
+            if not self.acc: self.err("the container accessors were not translated")
+            return "(dcInit none none)", "econt"                                          # DataContainer.__init__ (translated)
         if isinstance(f, ast.Attribute) and f.attr == "tolist" and not args:
             e, t = self.ex(f.value)
             if t != "rrow": self.err(f"tolist of a {t}")
@@ -725,7 +736,8 @@ class Fn:
                     nm, tn = self.ex(v.args[0])
                     if tn != "str": self.err("attribute name is not a string")
                     self.env[t.id] = (t.id, "handle")
-                    return [f"{ind}let s := createFlagAttr s {nm}", f"{ind}let {t.id} := {nm}"]
+                    call = f"(dcCreateAttribute (s.edges, s.eattrs) {nm} false none none)"
+                    return [f"{ind}let s := {{ s with edges := {call}.1, eattrs := {call}.2 }}", f"{ind}let {t.id} := {nm}"]
                 e, ty = self.ex(v)
                 return self.bind(t.id, e, ty, ind)
             if isinstance(t, ast.Tuple) and all(isinstance(x, ast.Name) for x in t.elts):
@@ -776,22 +788,22 @@ class Fn:
                     A, key = hs[0][0].split("|")
                     if key != k or dn != f"attrIsDense {A} {k}": self.err("the new attribute is not created from the old attribute of the same name")
                     self.hd[d] = ("local", c)
-                    return [f"{ind}let {c} := econtCreate {c} {k} ({dn}) (attrDflt {A} {k})", f"{ind}let {d} := {d} ++ [{k}]"]
+                    return [f"{ind}let {c} := dcCreateAttribute {c} {k} ({dn}) (some (attrDflt {A} {k})) none", f"{ind}let {d} := {d} ++ [{k}]"]
                 self.err(f"unsupported handle assignment {ast.unparse(st)[:80]}")
             if isinstance(t, ast.Subscript):
                 i, ti = self.ex(t.slice)
                 if _is_self(t.value) and t.value.attr in ("faces", "cells") and self.state == "rawr":
                     e, ty = self.ex(v)
                     if (ti, ty) != ("nat", "rrow"): self.err("self.faces[i] = <row> expected")
-                    return [f"{ind}let s := {{ s with {t.value.attr} := s.{t.value.attr}.set {self.atom(i)} {self.atom(e)} }}"]
+                    return [f"{ind}let s := {{ s with {t.value.attr} := (dcSet {self.pair(t.value)} {self.atom(i)} {self.atom(e)}).1 }}"]
                 if _is_self(t.value, "vertices") and self.state == "vstate":
                     e, ty = self.ex(v)
                     if (ti, ty) != ("nat", "vrow"): self.err("self.vertices[i] = v with i an index and v a row expected")
-                    return [f"{ind}let s := {{ s with verts := s.verts.set {self.atom(i)} {self.atom(e)} }}"]
+                    return [f"{ind}let s := {{ s with verts := (dcSet {self.pair(t.value)} {self.atom(i)} {self.atom(e)}).1 }}"]
                 if _is_self(t.value, "edges") and self.state == "raw":
                     e, ty = self.ex(v)
                     if (ti, ty) != ("nat", "edge"): self.err("self.edges[i] = e with i an index and e an edge expected")
-                    return [f"{ind}let s := {{ s with edges := s.edges.set {self.atom(i)} {self.atom(e)} }}"]
+                    return [f"{ind}let s := {{ s with edges := (dcSet {self.pair(t.value)} {self.atom(i)} {self.atom(e)}).1 }}"]
                 if isinstance(t.value, ast.Name) and t.value.id in self.env:
                     b = self.env[t.value.id]
                     if b[1] == "handle" and isinstance(v, ast.Constant) and v.value is True and ti == "nat":
@@ -881,6 +893,7 @@ class Fn:
             it, ti = st.iter.id, "hdict"            # iterating a dict of handles: its keys, in insertion order
         else:
             it, ti = self.ex(st.iter)
+            if self.pair(st.iter) is not None: it = f"(dcIter {self.pair(st.iter)})"    # `for x in self.<container>`
         self.nloop += 1
         k = self.nloop
         name = f"{self.lean}_loop{k}"
@@ -1103,7 +1116,9 @@ def from_arrays_program(tree):
                 and st.target.attr in cont and cont[st.target.attr][1] == arr \
                 and ast.unparse(st.value) in (f"list({arr})", f"list(np.array({arr}))", f"list(np.asarray({arr}))"):
             f = cont[st.target.attr][0]
-            return f"{{ m with {f} := m.{f} ++ {arr} }}"
+            if f == "edges":
+                return f"{{ m with edges := (dcIaddList (m.edges, m.eattrs) {arr}).1, eattrs := (dcIaddList (m.edges, m.eattrs) {arr}).2 }}"
+            return f"{{ m with {f} := (dcIaddList (m.{f}, ([] : List Attr)) {arr}).1 }}"
         return None
     k = 1
     done = set()
@@ -1256,6 +1271,136 @@ def accessors_program(md, dc):
     e, _ = _single_return(dc, "CornerDataContainer.__len__")
     if e not in ("len(self._elem)", "self._elem.__len__()"): raise TranslateError(f"CornerDataContainer.__len__ returns {e}")
     out.append("/-- `CornerDataContainer.__len__` -/\nabbrev cornerLen (c : List Nat × List Nat) : Nat := c.1.length\n")
+
+    # ---- round 7: element access, iteration, constructors, attribute creation / lookup, `+=`
+    e, ps = _single_return(dc, "DataContainer.__getitem__")
+    if len(ps) != 1 or e != f"self._data[{ps[0]}]": raise TranslateError(f"DataContainer.__getitem__ returns {e}")
+    out.append("/-- `DataContainer.__getitem__(key)` (an out-of-range read is totalised with `d`; IndexError is not modelled) -/\n"
+               "abbrev dcGet {α : Type} (c : List α × List Attr) (key : Nat) (d : α) : α := c.1.getD key d\n")
+    e, _ = _single_return(dc, "DataContainer.__iter__")
+    if e not in ("self._data.__iter__()", "iter(self._data)"): raise TranslateError(f"DataContainer.__iter__ returns {e}")
+    out.append("/-- `DataContainer.__iter__`: the rows, in order -/\nabbrev dcIter {α : Type} (c : List α × List Attr) : List α := c.1\n")
+    # __setitem__: `self._data[key] = value`, possibly inside try/except that re-raises
+    fn = T.find_def(dc, "DataContainer.__setitem__")
+    ps = [a.arg for a in fn.args.args][1:]
+    body = _strip(fn.body)
+    if len(body) == 1 and isinstance(body[0], ast.Try) and not body[0].orelse and not body[0].finalbody and \
+            all(h.body and isinstance(_strip(h.body)[-1], ast.Raise) for h in body[0].handlers):
+        body = _strip(body[0].body)
+    if len(ps) != 2 or len(body) != 1 or ast.unparse(body[0]) != f"self._data[{ps[0]}] = {ps[1]}":
+        raise TranslateError("DataContainer.__setitem__ is not `self._data[key] = value` (under a re-raising try)")
+    out.append("/-- `DataContainer.__setitem__(key, value)`: the row is replaced in place, attributes untouched -/\n"
+               "abbrev dcSet {α : Type} (c : List α × List Attr) (key : Nat) (v : α) : List α × List Attr := (c.1.set key v, c.2)\n")
+    # constructors
+    fn = T.find_def(dc, "_BaseDataContainer.__init__")
+    ps = [a.arg for a in fn.args.args][1:]
+    body = [b for b in _strip(fn.body) if not (isinstance(b, ast.Assign) and ast.unparse(b.targets[0]) == "self.id")]
+    ok = len(ps) == 2 and len(body) == 1 and isinstance(body[0], ast.If) and ast.unparse(body[0].test) == f"{ps[0]} is None" \
+        and [ast.unparse(x) for x in _strip(body[0].body)] in (["self._attr = dict()"], ["self._attr = {}"]) \
+        and [ast.unparse(x) for x in _strip(body[0].orelse) if not isinstance(x, ast.Assert)] == [f"self._attr = {ps[0]}"]
+    if not ok: raise TranslateError("_BaseDataContainer.__init__: `self._attr = dict() if attributes is None else attributes` not recognised")
+    out.append("/-- `_BaseDataContainer.__init__(attributes)`: a fresh dict, or the dict handed over (shared, not copied) -/\n"
+               "abbrev baseInit (attributes : Option (List Attr)) : List Attr := match attributes with | none => [] | some a => a\n")
+    fn = T.find_def(dc, "DataContainer.__init__")
+    ps = [a.arg for a in fn.args.args][1:]
+    body = [ast.unparse(b) for b in _strip(fn.body)]
+    if len(ps) != 3 or body != [f"super().__init__({ps[1]}, {ps[2]})", f"self._data = [] if {ps[0]} is None else list({ps[0]})"]:
+        raise TranslateError(f"DataContainer.__init__ body not recognised: {body}")
+    out.append("/-- `DataContainer.__init__(data, attributes)`: the base constructor, then a fresh list holding the rows given -/\n"
+               "abbrev dcInit {α : Type} (data : Option (List α)) (attributes : Option (List Attr)) : List α × List Attr :=\n"
+               "  ((match data with | none => [] | some d => d), baseInit attributes)\n")
+    fn = T.find_def(dc, "CornerDataContainer.__init__")
+    ps = [a.arg for a in fn.args.args][1:]
+    body = [ast.unparse(b) for b in _strip(fn.body)]
+    if len(ps) != 4 or body[0] != f"super().__init__({ps[2]}, {ps[3]})" or sorted(body[1:]) != sorted(
+            [f"self._elem = [] if {ps[0]} is None else list({ps[0]})", f"self._adj = [] if {ps[1]} is None else list({ps[1]})"]):
+        raise TranslateError(f"CornerDataContainer.__init__ body not recognised: {body}")
+    out.append("/-- `CornerDataContainer.__init__(elem, adj)` -/\n"
+               "abbrev cornerInit (elem adj : Option (List Nat)) : List Nat × List Nat :=\n"
+               "  ((match elem with | none => [] | some l => l), (match adj with | none => [] | some l => l))\n")
+    # get_attribute
+    fn = T.find_def(dc, "_BaseDataContainer.get_attribute")
+    ps = [a.arg for a in fn.args.args][1:]
+    body = _strip(Norm().visit(copy.deepcopy(fn)).body)
+    if not (len(ps) == 1 and len(body) == 2 and isinstance(body[0], ast.If) and ast.unparse(body[0].test) == f"{ps[0]} not in self._attr"
+            and len(_strip(body[0].body)) == 1 and isinstance(_strip(body[0].body)[0], ast.Raise) and not body[0].orelse
+            and ast.unparse(body[1]) == f"return self._attr[{ps[0]}]"):
+        raise TranslateError("get_attribute is not `if name not in self._attr: raise ..; return self._attr[name]`")
+    out.append("/-- `_BaseDataContainer.get_attribute(name)` (`none` = the exception) -/\n"
+               "abbrev dcGetAttribute {α : Type} (c : List α × List Attr) (name : String) : Option Attr :=\n"
+               "  if (!(hasAttr c.2 name)) then none else findAttr c.2 name\n")
+    # create_attribute
+    fn = T.find_def(dc, "_BaseDataContainer.create_attribute")
+    ps = [a.arg for a in fn.args.args][1:]
+    if ps != ["name", "data_type", "elem_size", "dense", "default_value", "size"]: raise TranslateError(f"create_attribute parameters {ps}")
+    body = [b for b in _strip(fn.body) if not (isinstance(b, ast.If) and not _strip(b.body) and not _strip(b.orelse))]   # `if ..: warnings.warn(..)`
+    if not (len(body) == 2 and isinstance(body[0], ast.If) and ast.unparse(body[0].test) == "dense" and ast.unparse(body[1]) == "return self._attr[name]"):
+        raise TranslateError("create_attribute is not `[warn]; if dense: .. else: ..; return self._attr[name]`")
+    b1, b2 = _strip(body[0].body), _strip(body[0].orelse)
+    if len(b1) != 1 or len(b2) != 1: raise TranslateError("create_attribute: one assignment per branch expected")
+
+    def ctor(st, cls):
+        if not (isinstance(st, ast.Assign) and ast.unparse(st.targets[0]) == "self._attr[name]" and isinstance(st.value, ast.Call) and ast.unparse(st.value.func) == cls):
+            raise TranslateError(f"create_attribute: `self._attr[name] = {cls}(..)` expected")
+        c = st.value
+        kw = {k.arg: ast.unparse(k.value) for k in c.keywords}
+        if kw != {"elem_size": "elem_size", "default_value": "default_value"} or ast.unparse(c.args[0]) != "data_type":
+            raise TranslateError(f"create_attribute: arguments of {cls}")
+        return [ast.unparse(a) for a in c.args[1:]]
+    a_dense, a_sparse = ctor(b1[0], "ArrayAttribute"), ctor(b2[0], "Attribute")
+    if a_sparse: raise TranslateError("create_attribute: Attribute(..) takes no size")
+    if a_dense == ["len(self) if size is None else int(size)"]: sz = "(match size with | none => dcLen c | some n => n)"
+    elif a_dense == ["len(self)"]: sz = "(dcLen c)"
+    else: raise TranslateError(f"create_attribute: size of the dense storage is {a_dense}")
+    out.append("/-- `_BaseDataContainer.create_attribute(name, data_type, elem_size, dense, default_value, size)` for one scalar per element;\n"
+               "`dflt` = `default_value` (`none`: the zero of `data_type`); `self._attr[name] = ..` is `attrDictSet` -/\n"
+               "def dcCreateAttribute {α : Type} (c : List α × List Attr) (name : String) (dense : Bool) (dflt : Option Int) (size : Option Nat) :\n"
+               "    List α × List Attr :=\n"
+               f"  if dense then (c.1, attrDictSet c.2 name {{ name := name, dflt := dflt.getD 0, st := .dense (List.replicate {sz} (dflt.getD 0)) }})\n"
+               "  else (c.1, attrDictSet c.2 name { name := name, dflt := dflt.getD 0, st := .sparse [] })\n")
+    # __iadd__
+    fn = T.find_def(dc, "DataContainer.__iadd__")
+    ps = [a.arg for a in fn.args.args][1:]
+    body = _strip(fn.body)
+    if not (len(ps) == 1 and len(body) == 2 and isinstance(body[0], ast.If) and ast.unparse(body[1]) == "return self"):
+        raise TranslateError("DataContainer.__iadd__ is not `if ..: .. elif ..: .. else: raise; return self`")
+    o = ps[0]
+    br1, rest = body[0], _strip(body[0].orelse)
+    kinds = sorted(ast.unparse(v) for v in (br1.test.values if isinstance(br1.test, ast.BoolOp) and isinstance(br1.test.op, ast.Or) else [br1.test]))
+    if kinds != sorted([f"isinstance({o}, list)", f"isinstance({o}, tuple)", f"isinstance({o}, set)"]):
+        raise TranslateError(f"__iadd__: first test {kinds}")
+    if not (len(rest) == 1 and isinstance(rest[0], ast.If) and ast.unparse(rest[0].test) == f"isinstance({o}, DataContainer)"
+            and len(_strip(rest[0].orelse)) == 1 and isinstance(_strip(rest[0].orelse)[0], ast.Raise)):
+        raise TranslateError("__iadd__: `elif isinstance(other, DataContainer): .. else: raise` expected")
+
+    def branch(stmts, srcs, lens):
+        """-> Lean amount expression; the statements must be: [n = <len>], self._data += <src>, for attr in self._attr.values(): attr._expand(<len>|n)"""
+        names, data, amount = {}, None, None
+        for st in _strip(stmts):
+            if isinstance(st, ast.Assign) and isinstance(st.targets[0], ast.Name) and ast.unparse(st.value) in lens:
+                names[st.targets[0].id] = lens[ast.unparse(st.value)]; continue
+            if isinstance(st, ast.AugAssign) and isinstance(st.op, ast.Add) and ast.unparse(st.target) == "self._data" and ast.unparse(st.value) in srcs and data is None:
+                data = True; continue
+            if isinstance(st, ast.For) and ast.unparse(st.iter) == "self._attr.values()" and len(_strip(st.body)) == 1 and amount is None:
+                c = _strip(st.body)[0]
+                if isinstance(c, ast.Expr) and isinstance(c.value, ast.Call) and ast.unparse(c.value.func) == f"{st.target.id}._expand" and len(c.value.args) == 1:
+                    a = ast.unparse(c.value.args[0])
+                    if a in lens: amount = lens[a]
+                    elif a in names: amount = names[a]
+                    elif a.isdigit(): amount = a
+                    else: raise TranslateError(f"__iadd__: attributes expanded by {a}")
+                    continue
+            raise TranslateError(f"__iadd__: unrecognised statement {ast.unparse(st)[:60]}")
+        if not data or amount is None: raise TranslateError("__iadd__: a branch does not extend both the rows and the attributes")
+        return amount
+    a1 = branch(br1.body, (f"list({o})", o), {f"len({o})": "other.length"})
+    a2 = branch(rest[0].body, (f"{o}._data", f"list({o}._data)"), {f"len({o}._data)": "o.1.length", f"len({o})": "o.1.length"})
+    out.append("/-- `DataContainer.__iadd__(other)`, `other` a list / tuple / set: the rows appended, every attribute expanded -/\n"
+               "def dcIaddList {α : Type} (c : List α × List Attr) (other : List α) : List α × List Attr :=\n"
+               f"  (c.1 ++ other, c.2.map (expandAttr ({a1})))\n")
+    out.append("/-- … `other` a DataContainer (its length read before the rows are appended: `other` may be `self`) -/\n"
+               "def dcIaddCont {α : Type} (c o : List α × List Attr) : List α × List Attr :=\n"
+               f"  (c.1 ++ o.1, c.2.map (expandAttr ({a2})))\n")
     for prop, cont in ID_PROPS.items():
         fn = T.find_def(md, "RawMeshData." + prop)
         body = _strip(fn.body)       # NOT normalised: the normaliser rewrites `self.id_x` itself
@@ -1302,7 +1447,7 @@ def translate_bodies():
                  lambda: accessors_program(tree(MD_FILE), tree(DC_FILE)))
     acc_ok = rec["ok"]
     if acc_ok:
-        chunks.append(rec["detail"]); rec["detail"] = {"lean": "Generated.C02B.dcLen, dcEmpty, dcHasAttr, dcAttributes, cornerLen, idVertices, idEdges, idFaces, idCells"}
+        chunks.append(rec["detail"]); rec["detail"] = {"lean": "Generated.C02B.dcLen, dcEmpty, dcHasAttr, dcAttributes, dcGet, dcIter, dcSet, baseInit, dcInit, cornerInit, dcGetAttribute, dcCreateAttribute, dcIaddList, dcIaddCont, cornerLen, idVertices, idEdges, idFaces, idCells"}
     else:
         chunks.append(f"/-- container accessors: NOT TRANSLATED ({rec['detail'][:200]}) -/\ndef accessorsNotTranslated : Unit := ()\n")
     sites.append(rec)
